@@ -204,6 +204,28 @@ where
             let b = chip.is_equal(l, &t, &w)?;
             out_bit(ctx, ng, l, &b)
         }
+        // a `select` between a well-formed element and an un-normalised sum, then a consumer that relies on
+        // the bounds bookkeeping of the selected element (normalisation before is_zero / exposure)
+        "add_select_is_zero" | "add_select_pi" => {
+            let c = in_bit(ctx, ng, l)?;
+            let x = in_elem(ctx, chip, ng, l)?;
+            let y = in_elem(ctx, chip, ng, l)?;
+            let z = in_elem(ctx, chip, ng, l)?;
+            let w = in_elem(ctx, chip, ng, l)?;
+            let t = chip.add(l, &x, &y)?;
+            let t = chip.add(l, &t, &z)?;
+            let r = chip.select(l, &c, &w, &t)?;
+            if op == "add_select_is_zero" {
+                let b = chip.is_zero(l, &r)?;
+                out_bit(ctx, ng, l, &b)
+            } else {
+                let pis = chip.as_public_input(l, &r)?;
+                for p in pis.iter() {
+                    ctx.expose(ng, l, p, false)?;
+                }
+                Ok(())
+            }
+        }
         "assert_equal" | "assert_not_equal" => {
             let x = in_elem(ctx, chip, ng, l)?;
             let y = in_elem(ctx, chip, ng, l)?;
